@@ -141,7 +141,5 @@ func tableWorker(c *evid.Ctx, prop string) {
 		d.Close()
 	}
 	tableConcurrent(c, prop)
-	if c.Counter("histories that filled a bucket") == 0 {
-		c.Inconclusive("no history filled a bucket")
-	}
+	c.Floor("histories that filled a bucket", 1)
 }
